@@ -50,7 +50,7 @@ class C17(Prop):
     imports = "From Tola Require Import Py.Base Model.Fragment Model.Scaffold Model.Namer Corr.NamerCorr."
     show_fn = "show"
     design_ref = "6/C17"
-    required_theorems = ['C17_tags_perm_invariant', 'C17_lc_ok_initial', 'C17_lc_ok_preserved', 'C17_legacy_order_dependent', 'C17_index_buffer_independent']
+    required_theorems = ['C17_tags_perm_invariant', 'C17_lc_ok_initial', 'C17_lc_ok_preserved', 'C17_legacy_order_dependent', 'C17_index_buffer_independent', 'C17_cold_warm_index', 'C17_cache_roundtrip_assembly']
 
     def rule(self):
         return (
